@@ -451,6 +451,10 @@ fn truncate_chars(input: &str, max_len: usize) -> String {
         + "…"
 }
 
+#[cfg(kani)]
+#[path = "/verif/harness/ripd/compaction_auto_summary.rs"]
+mod verif_kani;
+
 #[cfg(test)]
 mod tests {
     use super::*;
